@@ -95,7 +95,10 @@ static int rd_armed;
 static unsigned char rd_buf[65536];
 static size_t rd_len;
 static int rd_nrec;
-static struct { unsigned off, len; int wd; uint32_t mask, cookie; } rd_rec[MAXREC];
+static struct { unsigned off, len; int wd; uint32_t mask, cookie; } rd_rec[MAXREC], dl_rec[MAXREC];
+static unsigned char dl_buf[65536];	/* what the last successful read handed to the library (a prefix of the queue) */
+static int dl_nrec;
+static void delivered(int nrec, size_t bytes);
 static unsigned char *cur_base;	/* where the library's buffer lives during a walk */
 static int cur_fd;
 
@@ -130,6 +133,7 @@ static ssize_t v_read(int fd, void *buf, size_t count)
 		rd_len = r;
 		memcpy(rd_buf, buf, r);
 		cur_base = buf;
+		delivered(rd_nrec, r);
 		printf("KERNEL ok %d %zd\n", rd_nrec, r);
 		printf("READ data %zd %d\n", r, rd_nrec);
 		for (k = 0; k < rd_nrec; k++)
@@ -142,15 +146,50 @@ static ssize_t v_read(int fd, void *buf, size_t count)
 		errno = EINTR;
 		return -1;
 	}
-	if (!rd_armed || rd_kind == 0 || rd_len > count) {
+	if (!rd_armed || rd_kind == 0) {
 		rd_armed = 0;
 		printf("READ eagain\n");
 		errno = EAGAIN;
 		return -1;
 	}
+	if (rd_len > count) {
+		/* like the kernel: as many whole events as fit; a buffer too small for the very next event is an error (EINVAL), not
+		 * "nothing to read"; what did not fit stays queued for the next read */
+		int fit = 0;
+		size_t bytes = 0, rest;
+		while (fit < rd_nrec && rd_rec[fit].off + EVSZ + rd_rec[fit].len <= count) {
+			bytes = rd_rec[fit].off + EVSZ + rd_rec[fit].len;
+			fit++;
+		}
+		if (fit == 0) {
+			printf("READ einval-buffer-too-small %zu\n", count);
+			errno = EINVAL;
+			return -1;
+		}
+		memcpy(buf, rd_buf, bytes);
+		cur_base = buf;
+		delivered(fit, bytes);
+		printf("READ data %zu %d\n", bytes, fit);
+		for (k = 0; k < fit; k++) {
+			printf("REC %u %d %u %u %u\n", rd_rec[k].off, rd_rec[k].wd, rd_rec[k].mask, rd_rec[k].cookie, rd_rec[k].len);
+			if ((rd_rec[k].mask & IN_IGNORED) && ngone < (int)(sizeof(gone) / sizeof(gone[0]))) {
+				gone[ngone].fd = fd; gone[ngone].wd = rd_rec[k].wd; ngone++;
+			}
+		}
+		rest = rd_len - bytes;
+		memmove(rd_buf, rd_buf + bytes, rest);
+		for (k = fit; k < rd_nrec; k++) {
+			rd_rec[k - fit] = rd_rec[k];
+			rd_rec[k - fit].off -= bytes;
+		}
+		rd_nrec -= fit;
+		rd_len = rest;
+		return bytes;
+	}
 	rd_armed = 0;
 	memcpy(buf, rd_buf, rd_len);
 	cur_base = buf;
+	delivered(rd_nrec, rd_len);
 	printf("READ data %zu %d\n", rd_len, rd_nrec);
 	for (k = 0; k < rd_nrec; k++) {
 		printf("REC %u %d %u %u %u\n", rd_rec[k].off, rd_rec[k].wd, rd_rec[k].mask, rd_rec[k].cookie, rd_rec[k].len);
@@ -161,6 +200,13 @@ static ssize_t v_read(int fd, void *buf, size_t count)
 		}
 	}
 	return rd_len;
+}
+
+static void delivered(int nrec, size_t bytes)
+{
+	memcpy(dl_rec, rd_rec, sizeof(dl_rec[0]) * nrec);
+	memcpy(dl_buf, rd_buf, bytes);
+	dl_nrec = nrec;
 }
 
 static int v_inotify_init(void)
@@ -237,10 +283,10 @@ static void cb(void *cookie, struct inotify_event *ev)
 	if (is[s->inst].registered)
 		intree = in_tree(is[s->inst].in, s->w);
 	/* the name bytes handed to the handler must be those of the record */
-	for (k = 0; k < rd_nrec; k++)
-		if ((long)rd_rec[k].off == off)
+	for (k = 0; k < dl_nrec; k++)
+		if ((long)dl_rec[k].off == off)
 			break;
-	if (k == rd_nrec || memcmp(ev, rd_buf + off, EVSZ + rd_rec[k].len) != 0)
+	if (k == dl_nrec || memcmp(ev, dl_buf + off, EVSZ + dl_rec[k].len) != 0)
 		nameok = 0;
 	printf("CB %d %ld %d %u %u %u %d %s\n", s->id, off, ev->wd, ev->mask, ev->cookie, ev->len, intree, nameok ? "ok" : "bad");
 	/* what a user of the API knows: the library has dropped this watch */
